@@ -183,6 +183,10 @@ def continuous_case(ctx, k, bud):
     if msg:
         ctx.violation('c07-contract', 'sample: ' + msg, replay=rep)
         return
+    from harness.c06 import double_precision_evidence_kept
+    Xd = random_evidence(rs, scope, order, dom, nv, 6)
+    if not double_precision_evidence_kept(ctx, root, Xd, scope, order, dict(rep, kind='c07-float64'), fn=sample, name='sample'):
+        return
     if not ctx.driver_ok:
         return
     drv = ctx.get_driver()
@@ -352,6 +356,9 @@ def run(ctx):
 
 
 def replay(rep):
+    if rep['replay'].get('kind') == 'c07-float64':
+        from harness.c06 import replay_float64
+        return replay_float64(rep['replay'], sample)
     if rep['replay'].get('kind') == 'demo':
         from harness.common import replay_demo
         return replay_demo(rep['replay'])
